@@ -168,7 +168,7 @@ impl Prop for C15 {
     }
 
     fn cases(tier: Tier) -> u64 {
-        tier.pick(400_000, 4_000_000)
+        tier.pick(400_000, 15_000_000)
     }
 
     fn strategy(_tier: Tier) -> BoxedStrategy<Case> {
